@@ -185,6 +185,26 @@ ADDENDA5 = {
  "C19": " Round six: negotiation succeeds only with a supported media type found or with no Accept header at all.",
  "C20": " Round six: the per-protocol values ToURL unescapes are the components' string values (not RawValue).",
 }
+ADDENDA6 = {
+ "C01": " Round seven: a whole-struct store over the state holding the synced-block counter counts as a write of the counter unless it carries the old value over.",
+ "C02": " Round seven: a routine that is handed the sync's outcome records the head as latest sync only on its nil-error edge.",
+ "C03": " Round seven: payload pieces under a short-circuit test are guarded by the disjunction of the tests (a shared payload helper that returns the bare CID for an absent or empty topic is followed).",
+ "C05": " Round seven: the byte decoders return the record the unwrap step produced with no field of it stored to in between.",
+ "C06": " Round seven: the 'still present' mark follows the lookup of the cached record directly (no further test): an unchanged provider the source keeps reporting does not expire.",
+ "C08": " Round seven: after the receiver's check accepted an announcement (marking its CID seen) every way out of the delivery routine goes through the hand-over select.",
+ "C09": " Round seven: the filter options store their argument unconditionally; the self-republication test is a path rule (every way from 'has an original peer' to delivery passes sender != this host).",
+ "C11": " Round seven: varints are read with go-varint's strict readers, never encoding/binary's (positive example kept); one bytes.Buffer shared by all protocols is an accepted cursor idiom.",
+ "C12": " Round seven: SplitValueKey fails only under a failed parsing call (a key with an empty context ID splits back); digests are followed through a salting helper.",
+ "C13": " Round seven: a schema field is optional or nullable only if its Go type is a pointer or an interface, and every pointer field is optional; decoded records are handed on unmodified.",
+ "C14": " Round seven: a listener's queue is ended with Close, never Shutdown; the distributor may hold the queues themselves.",
+ "C15": " Round seven: Close of a listener's queue counts as the close of its channel (close-once); slot helpers over a nil-able semaphore are lock wrappers.",
+ "C16": " Round seven: Close waits for the watcher only under a test of the channel itself or of a field set only where the channel is made.",
+ "C18": " Round seven: tests merged into one error value are seen through (the success return lies under signer == provider although the rejections share one exit).",
+ "C19": " Round seven: the loop over the Accept header's values is left only when exhausted or with the invalid-header error; the client's not-found answer lies under no test on reading the body.",
+ "C20": " Round seven: the http/https test of FindHTTPAddrs is made for every protocol of the address in turn.",
+}
+for _pid, _extra in ADDENDA6.items():
+    ADDENDA5[_pid] = ADDENDA5.get(_pid, "") + _extra
 for _pid, _extra in ADDENDA5.items():
     ADDENDA4[_pid] = ADDENDA4.get(_pid, "") + _extra
 for _pid, _extra in ADDENDA4.items():
